@@ -214,6 +214,14 @@ int main(int argc, char **argv) {
     rng.reseed(seed * 1000003ull + t * 131 + bb * 17 + n_out * 3 + shard * 7919 + (mode == "noisy" ? 5 : 0));
     NoiselessKS::array_element = args.i("arrayelement", -1);
     if (NoiselessKS::array_element >= 0) { char c[64]; snprintf(c, sizeof c, "key-is-element-%d-of-a-key-array", NoiselessKS::array_element); out.cell(c); }
+    // process history: a key-switching key of another decomposition and other dimensions is created and used first
+    if (args.i("prelude", 0)) {
+        int t0 = t == 3 ? 5 : 3, bb0 = bb == 4 ? 3 : 4;
+        int save = NoiselessKS::array_element; NoiselessKS::array_element = -1;
+        exact_multi(t0, bb0, n_in == 7 ? 9 : 7, n_out == 4 ? 6 : 4, 40);
+        NoiselessKS::array_element = save;
+        out.cell("history:other-decomposition-used-first-in-this-process");
+    }
     if (mode == "exact") {
         int lg = args.i("log2count", 24);
         exact_sweep(t, bb, n_out, lg, shard, nshards, args.has("translate"));
